@@ -929,6 +929,15 @@ func (cn *calleeNames) bind(recv *Term, args, results []*Term) map[string]*SVal 
 func (fr *Frame) applyContract(st *State, fc *FuncContract, fn *types.Func, sig *types.Signature, recv *Term, args []*Term, call *ast.CallExpr) []*Term {
 	e := fr.e
 	fc.used = true
+	if !fc.Trusted && e.funcs[fc.Key] != nil && fr.top != nil && fr.top.fn != nil && fr.top.fn.Key != fc.Key {
+		if e.deps == nil {
+			e.deps = map[string]map[string]bool{}
+		}
+		if e.deps[fr.top.fn.Key] == nil {
+			e.deps[fr.top.fn.Key] = map[string]bool{}
+		}
+		e.deps[fr.top.fn.Key][fc.Key] = true
+	}
 	cn := e.namesOf(fc, fn, sig)
 	pkgPath := ""
 	if fn.Pkg() != nil {
